@@ -416,15 +416,15 @@ Proof.
   destruct (service_for (table_of (st_services st)) sni root_path) as [[n p]|] eqn:Es; [|contradiction].
   destruct (svc_get (st_services st) n) as [s|] eqn:Eg; [|contradiction].
   destruct (root_service_serves_root _ _ _ _ _ Hok Es Eg) as [_ Hr].
-  exists n, p, s. split; [reflexivity|]. split; [reflexivity|]. split; [exact Hr|].
+  exists n, p, s. split; [reflexivity|]. split; [exact Eg|]. split; [exact Hr|].
   destruct (s_has_cert s) eqn:Ec; cbn [negb] in *; [|contradiction].
   assert (Ht : o_tls (s_opts s) = true).
   { rewrite <- (Hc s); [exact Ec| |exact Hr]. now apply svc_get_some in Eg. }
   split; [exact Ht|].
   destruct (o_cert (s_opts s)); [| |contradiction].
-  - split; [|discriminate]. intros _. exfalso.
-    destruct (acme_domain (o_hosts (s_opts s)) sni); discriminate.
-  - split; [discriminate|]. intros d Hd.
+  - split.
+    { intros E. destruct (acme_domain (o_hosts (s_opts s)) sni); discriminate. }
+    intros d Hd.
     unfold acme_domain in Hd.
     destruct (negb (contains_byte (trim_byte dot sni) dot)); [discriminate|].
     destruct (idna_lookup_ascii sni) as [name|] eqn:En; [|discriminate].
@@ -433,4 +433,5 @@ Proof.
     apply idna_some in En. subst name. split; [reflexivity|].
     apply mem_str_In in Em. apply in_whitelist in Em as (h & Hh & Eh).
     apply idna_some in Eh. eauto.
+  - split; [reflexivity|]. intros d Hd. discriminate.
 Qed.
